@@ -1,8 +1,8 @@
 SPECIFICATION Spec
 CONSTANTS
   Configs <- ConfigsThorough
-  Fix = FALSE
+  Fix = TRUE
   EmitGen = FALSE
   Seed = 0
-INVARIANTS InvLookupNr InvLookupTime InvTimelineShape InvTimelineEdge InvListedServed
+INVARIANTS InvLookupNr InvLookupTimeAll InvTimelineShape InvTimelineEdgeAll InvListedServedAll
 PROPERTIES ImplMonotone ImplForward ImplPtIdentifiesEdge
